@@ -12,6 +12,7 @@ def run(ctx):
     ctx.run(M.lit2_catalogue_literals)
     ctx.run(M.flw2_compaction_covers_names)
     ctx.run(OP.pan5_result_type_lattice_total)
+    ctx.run(OP.tbl20_registry_forwards_null)
     return ctx.finish(
         'Static rules: catalogue rows are added to the event buffer before it is cloned for the '
         'write-ahead segment; the three ingestion siblings record every incoming name under both '
